@@ -345,7 +345,7 @@ impl<'a> Gen<'a> {
     }
 
     fn slice_parts(&mut self) -> (J, J, J) {
-        let mut part = |g: &mut Gen| -> J {
+        let part = |g: &mut Gen| -> J {
             if g.rng.chance(1, 3) { absent() } else { int(g.pick(&[0i64, 1, 2, -1, -2, 3, 5, -5])) }
         };
         let lo = part(self);
